@@ -142,7 +142,7 @@ func ruleGoClosureCaptures(c *Ctx, rule string) {
 
 // initOnly: fn is one of the named constructor/init functions, or every static caller of fn is (transitively).
 func initOnly(c *Ctx, fn *ssa.Function, writers []string, depth int) bool {
-	if contains(writers, fn.Name()) {
+	if contains(writers, bareName(fn)) {
 		return true
 	}
 	if depth > 4 {
